@@ -1176,7 +1176,7 @@ func main() {
 	if lines := o.ReplayLines(); lines != nil {
 		var jobs []job
 		for _, l := range lines {
-			if f := strings.Fields(l); len(f) == 3 && f[0] == "SYSF" {
+			if f := strings.Fields(l); len(f) >= 3 && f[0] == "SYSF" {
 				for _, r := range sysFaultScenario(common.Atou(f[1]), common.Atoi(f[2]), filepath.Join(o.Out, "sysf")) {
 					out.Case(r.line, r.ans, true)
 					for _, fl := range r.fails {
